@@ -7,6 +7,9 @@ import "sync"
 // Auto marks a machine-inserted interleaving point (see auto_on.go; nothing in the repository calls it).
 func Auto(site string) {}
 
+// SelectLoop marks a goroutine that multiplexes channels with select (see auto_on.go).
+func SelectLoop() {}
+
 // Mutex and RWMutex are what the instrumented scratch copy uses in place of the sync types.
 type Mutex = sync.Mutex
 type RWMutex = sync.RWMutex
